@@ -168,15 +168,16 @@ VALID_NAMES = ["a", "b", "c", "d", "e", "f", "g", "h", "Ä ö", "a b"]
 INVALID_NAMES = ["", "x;y", ";", "a;"]
 
 
-def mc_forest(wd, fam, max_crates, max_ops, max_tracks=0, with_tracks=False, valid=("a", "b"), invalid=("", "x;y"),
-              workers=8, timeout=900, tag=None):
+def mc_forest(wd, fam, max_crates, max_ops, max_tracks=0, with_tracks=False, valid=("a", "b", "c", "d"), invalid=("", "x;y"),
+              opnames=("a", "b", "", "x;y"), crate_ops="all", pre="none", workers=8, timeout=900, tag=None):
     """Model-checks Library on the bounded instance and returns (stats, scripts)."""
     consts = {"Family": fam, "ValidNames": set(valid), "InvalidNames": set(invalid),
               "DupPolicy": "reject" if fam == "v2" else "accept", "PosPolicy": "tail",
-              "MaxCrates": max_crates, "MaxTracks": max_tracks, "MaxOps": max_ops, "WithTracks": with_tracks}
+              "MaxCrates": max_crates, "MaxTracks": max_tracks, "MaxOps": max_ops, "WithTracks": with_tracks,
+              "OpNames": set(opnames), "CrateOpSet": crate_ops, "Pre": pre}
     cfg = cfg_text("MCSpec", consts, invariants=LIB_INV, properties=LIB_PROPS, view="MCView",
                    action_constraints=["Emit"])
-    tag = tag or "mcforest_%s_%d_%d_%d" % (fam, max_crates, max_ops, max_tracks)
+    tag = tag or "mcforest_%s_%d_%d_%d_%s_%s" % (fam, max_crates, max_ops, max_tracks, crate_ops, pre)
     rc, outp = run_tlc("MCForest", cfg, wd, tag, workers=workers, timeout=timeout)
     res = parse_tlc(outp)
     if res["fatal"] or rc not in (0,) or not res["ok"]:
